@@ -718,6 +718,8 @@ impl ParserListener for Screen {
                         .and_then(|l| l.get_mut(&(self.columns - 1)))
                     {
                         last.data = last.data.nfc().collect::<String>() + &char.to_string();
+                        // The mark changed the last cell of the previous row.
+                        self.dirty.insert(self.cursor.y - 1);
                     }
                 }
             } else {
